@@ -609,8 +609,11 @@ def _r_arith(root: Any, op: dict, a: Action, idx: Any) -> Action:
         operand = decimal.Decimal(v['v'])
     else:
         operand = _donor({'k': 'number_expr', 't': v['v']})
-    if op['op'] == '/=' and (operand.value if hasattr(operand, 'value') else operand) == 0:
-        raise NotApplicable('division by zero')
+    try:
+        if op['op'] == '/=' and (operand.value if hasattr(operand, 'value') else operand) == 0:
+            raise NotApplicable('division by zero')
+    except decimal.DecimalException:
+        raise NotApplicable('operand does not evaluate')
     a.P, a.changed, a.structural, a.prop, a.shape = e, [e], False, op['op'], op['op'] + ':' + v['vt']
     a.ref['operand'] = operand
 
